@@ -12,7 +12,7 @@ def scen(r, i, th=None):
     """one scenario from a family; events are placed >= 25 ms away from the window edges they straddle"""
     th = th if th is not None else r.choice([0, 60, 80, 100])
     fam = r.choice(["single", "burst", "straddle", "rejected_stream", "accepted_stream", "urgent", "slow_handler", "multi_producer",
-                    "empties", "errors", "small_queue", "prio_mix", "runtime_throttle", "runtime_throttle", "duplicates"])
+                    "empties", "errors", "small_queue", "prio_mix", "prio_verdicts", "runtime_throttle", "runtime_throttle", "duplicates"])
     changes = []
     evs, t, nid = [], 20, 1
 
@@ -81,6 +81,12 @@ def scen(r, i, th=None):
         add(t + th + 45, prio="high")
         add(t + th + 50, prio="normal")
         add(t + th + 55, prio="urgent")
+    elif fam == "prio_verdicts":
+        # every non-urgent priority class with every filter verdict: only urgent (and empty) events by-pass the filterer
+        combos = [(p, v) for p in ("low", "normal", "high") for v in ("pass", "reject", "err")]
+        r.shuffle(combos)
+        for k, (p, v) in enumerate(combos[:r.randint(4, 9)]):
+            add(t + 12 * k, prio=p, verdict=v)
     elif fam == "duplicates":
         # identical events (same tags and metadata): each of them is an event of its own
         th = max(th, 80)
